@@ -54,6 +54,9 @@ CLAIMED = {
  "C11": dict(cat="model_checking", technique="TLA+ model on an exact sub-domain (SluEquil: entries 0 or 2^e, integer arithmetic on exponents) with exhaustive comparison by TLC against the real ?gsequ/?laqgs + SluApi driver rule on executed histories",
              text="On matrices with entries 0 or +-2^e every output of ?gsequ and ?laqgs (R, C, rowcnd, colcnd, amax, info, equed, the scaled matrix) is an integer function of the exponents, including clipping, thresholds, underflow and zero rows/columns; TLC compares the real routines exactly with that model on every 1x1 and 2x2 matrix over exponent sets spanning the range, random 3x3/4x4, four precisions; the expert-driver rule for A and B is asserted on every driver record.",
              note="Exact only on the power-of-two domain; overflow of c_j*r_i is excluded from the claim; general matrices via the driver-level clauses (few-ulp relation).", ref="3.7, 5 C11"),
+ "C19": dict(cat="exploration", technique="TLA+ dense definitions (SluKernels) evaluated by TLC on records of the real kernels over an exact small-integer domain (bit-identical comparison)",
+             text="On small (Gaussian) integer data the sparse mat-vec, mat-mat, triangular solves with factored L/U, norms, row-to-column conversion and copy must equal their dense definitions exactly; TLC recomputes the definition for every record produced by the real routines in four precisions.",
+             note="Exact domain only (entries -2..2, unit increments); rounding-bound agreement on general values is observed indirectly through C01/C02/C07. Known findings: F11 (non-unit increments), F15 (Frobenius norm), F18 (complex conjugate transpose).", ref="3.7, 5 C19"),
 }
 NA_REASON = "check not built yet in this session (planned, see DESIGN.md section 5); not claimed"
 
